@@ -197,6 +197,8 @@ pub enum Op {
     Gc,
     /// close the writer (consuming it with wait_merging_threads or dropping it) and open a new one
     Reopen { wait_merges: bool },
+    /// switch the merge policy of the live writer (eager LogMergePolicy / NoMergePolicy)
+    SetPolicy(bool),
 }
 
 impl Op {
@@ -222,6 +224,8 @@ impl Op {
             Op::Gc => "gc",
             Op::Reopen { wait_merges: true } => "reopen-wait",
             Op::Reopen { wait_merges: false } => "reopen-drop",
+            Op::SetPolicy(true) => "policy-log",
+            Op::SetPolicy(false) => "policy-none",
         }
     }
     pub fn brief(&self) -> Value {
@@ -246,8 +250,8 @@ pub struct GenCfg {
     pub len: usize,
     pub groups: u64,
     /// relative weights: add, delete_term, delete_query, batch, delete_all, commit, prepcommit,
-    /// rollback, merge, gc, reopen, cutter
-    pub w: [u32; 12],
+    /// rollback, merge, gc, reopen, cutter, set-policy
+    pub w: [u32; 13],
     pub allow_delete_all: bool,
     pub final_commit: bool,
 }
@@ -257,7 +261,7 @@ impl GenCfg {
         GenCfg {
             len,
             groups: 4,
-            w: [40, 10, 6, 6, 2, 10, 3, 3, 5, 2, 2, 2],
+            w: [40, 10, 6, 6, 2, 10, 3, 3, 5, 2, 2, 2, 2],
             allow_delete_all: true,
             final_commit: true,
         }
@@ -346,7 +350,23 @@ impl HistGen {
                     ops.push(Op::Batch(b));
                 }
                 4 => ops.push(Op::DeleteAll),
-                5 => ops.push(Op::Commit),
+                5 => {
+                    ops.push(Op::Commit);
+                    // now and then a delete-only transaction right after (no new segment, only
+                    // new .del files)
+                    if rng.chance(1, 4) {
+                        let term_only = rng.bool();
+                        let p = self.pred(rng, cfg.groups, term_only);
+                        if rng.bool() {
+                            ops.push(Op::DeleteQuery(p));
+                        } else if p.term(&hschema()).is_some() {
+                            ops.push(Op::DeleteTerm(p));
+                        } else {
+                            ops.push(Op::DeleteQuery(p));
+                        }
+                        ops.push(Op::Commit);
+                    }
+                }
                 6 => ops.push(Op::PrepCommit {
                     payload: if rng.bool() {
                         Some(format!("payload-{}", rng.below(1000)))
@@ -365,6 +385,7 @@ impl HistGen {
                 10 => ops.push(Op::Reopen {
                     wait_merges: rng.bool(),
                 }),
+                12 => ops.push(Op::SetPolicy(rng.bool())),
                 _ => {
                     let mut d = self.doc(rng, cfg.groups);
                     d.pad = CUTTER_PAD;
@@ -845,6 +866,18 @@ impl Exec {
         Ok(ex)
     }
 
+    fn apply_policy(w: &IndexWriter, log: bool) {
+        if log {
+            let mut p = LogMergePolicy::default();
+            p.set_min_num_segments(2);
+            p.set_min_layer_size(3);
+            p.set_max_docs_before_merge(100_000);
+            w.set_merge_policy(Box::new(p));
+        } else {
+            w.set_merge_policy(Box::new(NoMergePolicy));
+        }
+    }
+
     pub fn open_writer(&mut self) -> Result<(), String> {
         let opts = tantivy::indexer::IndexWriterOptions::builder()
             .num_worker_threads(self.cfg.threads)
@@ -855,15 +888,7 @@ impl Exec {
             .index
             .writer_with_options(opts)
             .map_err(|e| format!("writer: {e}"))?;
-        if self.cfg.merge_policy {
-            let mut p = LogMergePolicy::default();
-            p.set_min_num_segments(2);
-            p.set_min_layer_size(3);
-            p.set_max_docs_before_merge(100_000);
-            w.set_merge_policy(Box::new(p));
-        } else {
-            w.set_merge_policy(Box::new(NoMergePolicy));
-        }
+        Exec::apply_policy(&w, self.cfg.merge_policy);
         self.writer = Some(w);
         Ok(())
     }
@@ -1158,6 +1183,11 @@ impl Exec {
                     Ok(_) => Exec::ok(),
                     Err(e) => self.api_err("garbage_collect_files", e.to_string()),
                 }
+            }
+            Op::SetPolicy(log) => {
+                self.cfg.merge_policy = *log;
+                Exec::apply_policy(self.writer.as_ref().unwrap(), *log);
+                Exec::ok()
             }
             Op::Reopen { wait_merges } => {
                 self.ev("call:close_writer", if *wait_merges { "wait" } else { "drop" });
